@@ -4,6 +4,7 @@ import (
 	"context"
 	"fmt"
 	"reflect"
+	"sync"
 	"time"
 
 	"github.com/Trendyol/go-dcp/tracing"
@@ -68,6 +69,7 @@ type observer struct {
 	tracer          *tracing.TracerComponent
 	listener        func(args models.ListenerArgs)
 	endListener     func(context models.DcpStreamEndContext)
+	endLock         sync.Mutex
 	vbUUID          gocbcore.VbUUID
 	catchupSeqNo    uint64
 	persistSeqNo    gocbcore.SeqNo
@@ -271,6 +273,11 @@ func (so *observer) Expiration(event gocbcore.DcpExpiration) { //nolint:dupl
 
 // nolint:staticcheck
 func (so *observer) End(event models.DcpStreamEnd, err error) {
+	// held while the end is handled: once CloseEnd has returned no end of this (closed)
+	// stream can touch the stream's counters of the next open any more
+	so.endLock.Lock()
+	defer so.endLock.Unlock()
+
 	if so.endClosed {
 		return
 	}
@@ -467,7 +474,9 @@ func (so *observer) SetVbUUID(vbUUID gocbcore.VbUUID) {
 
 // nolint:staticcheck
 func (so *observer) CloseEnd() {
+	so.endLock.Lock()
 	so.endClosed = true
+	so.endLock.Unlock()
 }
 
 func NewObserver(
